@@ -5,7 +5,7 @@ from harness import tables
 
 ID = "C07"
 PROP_FILE = "Props/C07.v"
-THEOREMS = ["C07_transitions_legal"]
+THEOREMS = ["C07_transitions_legal", "C07_quiescent_state", "C07_cleanup_never_refused", "C07_done_is_idle"]
 cases = ec.gen_cases
 
 _TABLE = None
